@@ -153,10 +153,27 @@ Proof.
 Qed.
 
 (* ---------- the chain on the request path ---------- *)
+(* header names a configured plugin writes: the `headers` plugin's request_set / set keys, and X-Request-Id for the
+   request-id plugin (which only fills it in when the request does not carry one: see chain_request_keeps_id) *)
 Fixpoint chain_reqset_keys (chain : list wplug) : list bytes :=
-  match chain with [] => [] | WHeaders _ rs :: t => map fst rs ++ chain_reqset_keys t | _ :: t => chain_reqset_keys t end.
+  match chain with
+  | [] => []
+  | WHeaders _ rs :: t => map fst rs ++ chain_reqset_keys t
+  | WReqId :: t => s_xrid :: chain_reqset_keys t
+  | _ :: t => chain_reqset_keys t
+  end.
 Fixpoint chain_set_keys (chain : list wplug) : list bytes :=
-  match chain with [] => [] | WHeaders s _ :: t => map fst s ++ chain_set_keys t | _ :: t => chain_set_keys t end.
+  match chain with
+  | [] => []
+  | WHeaders s _ :: t => map fst s ++ chain_set_keys t
+  | WReqId :: t => s_xrid :: chain_set_keys t
+  | _ :: t => chain_set_keys t
+  end.
+(* the keys of the `headers` plugins alone *)
+Fixpoint hdr_reqset_keys (chain : list wplug) : list bytes :=
+  match chain with [] => [] | WHeaders _ rs :: t => map fst rs ++ hdr_reqset_keys t | _ :: t => hdr_reqset_keys t end.
+Fixpoint hdr_set_keys (chain : list wplug) : list bytes :=
+  match chain with [] => [] | WHeaders s _ :: t => map fst s ++ hdr_set_keys t | _ :: t => hdr_set_keys t end.
 
 (* a header no headers-plugin touches travels through the chain unchanged, in both directions, whether or not a plugin rejects *)
 Lemma chain_request_keeps k chain q h pre :
@@ -164,7 +181,7 @@ Lemma chain_request_keeps k chain q h pre :
   hvalues k (snd (fst (chain_request chain q h pre))) = hvalues k h /\ hvalues k (snd (chain_request chain q h pre)) = hvalues k pre.
 Proof.
   revert h pre. induction chain as [|p t IH]; intros h pre H1 H2; cbn [chain_request]; [cbn; auto|].
-  destruct p as [|set reqset|key|maxreq maxresp|]; cbn [chain_reqset_keys chain_set_keys] in H1, H2.
+  destruct p as [|set reqset|key|maxreq maxresp| |]; cbn [chain_reqset_keys chain_set_keys] in H1, H2.
   - apply IH; assumption.
   - rewrite in_app_iff in H1, H2.
     destruct (IH (fold_left (fun acc kv => hset (fst kv) (snd kv) acc) reqset h)
@@ -173,6 +190,33 @@ Proof.
   - destruct (bytes_eqb _ key); [apply IH; assumption|cbn; auto].
   - destruct (Z.eqb (q_framing q) 1 && (maxreq <? q_blen q)); [cbn; auto|apply IH; assumption].
   - apply IH; assumption.
+  - cbn [In] in H1, H2. cbv zeta.
+    destruct (IH (hset s_xrid (match hget s_xrid h with Some v => if bytes_eqb v [] then GEN_PLUG else v | None => GEN_PLUG end) h)
+                 (hset s_xrid (match hget s_xrid h with Some v => if bytes_eqb v [] then GEN_PLUG else v | None => GEN_PLUG end) pre)) as [A B]; [tauto|tauto|].
+    rewrite A, B. rewrite !hvalues_hset_other by (intros E; apply H1; left; symmetry; exact E). auto.
+Qed.
+
+(* The request-id plugin keeps an ID the request already carries: a header whose single non-empty value is already on the
+   request and pre-set on the response (what the ID middleware leaves) travels through any chain unchanged, as long as no
+   `headers` plugin overwrites it. *)
+Lemma chain_request_keeps_id k v chain q : forall h pre,
+  ~ In k (hdr_reqset_keys chain) -> ~ In k (hdr_set_keys chain) -> v <> [] ->
+  hvalues k h = [v] -> hvalues k pre = [v] ->
+  hvalues k (snd (fst (chain_request chain q h pre))) = [v] /\ hvalues k (snd (chain_request chain q h pre)) = [v].
+Proof.
+  induction chain as [|p t IH]; intros h pre H1 H2 Hv Hh Hp; cbn [chain_request]; [cbn; auto|].
+  destruct p as [|set reqset|key|maxreq maxresp| |]; cbn [hdr_reqset_keys hdr_set_keys] in H1, H2.
+  - apply IH; assumption.
+  - rewrite in_app_iff in H1, H2. apply IH; try tauto.
+    + rewrite hvalues_fold_hset_other by tauto. exact Hh.
+    + rewrite hvalues_fold_hset_other by tauto. exact Hp.
+  - destruct (bytes_eqb _ key); [apply IH; assumption|cbn; auto].
+  - destruct (Z.eqb (q_framing q) 1 && (maxreq <? q_blen q)); [cbn; auto|apply IH; assumption].
+  - apply IH; assumption.
+  - cbv zeta. destruct (list_eq_dec Z.eq_dec k s_xrid) as [E|E].
+    + subst k. rewrite hget_hvalues, Hh. rewrite (bytes_eqb_neq v []) by exact Hv.
+      apply IH; try assumption; apply hvalues_hset_same.
+    + apply IH; try assumption; rewrite hvalues_hset_other by exact E; assumption.
 Qed.
 
 (* ---------- ReverseProxy on the request ---------- *)
@@ -313,12 +357,13 @@ Proof.
   { (* Connection values travel unchanged up to the proxy *)
     assert (A2 : forall pre0, hvalues s_connection (snd (fst (chain_request (c_chain c) q h1 pre0))) = hvalues s_connection h1).
     { clear - Hc. revert h1. induction (c_chain c) as [|p t IH]; intros h1 pre0; cbn [chain_request]; [reflexivity|].
-      destruct p as [|set reqset|key|maxreq maxresp|]; cbn [chain_reqset_keys] in Hc.
+      destruct p as [|set reqset|key|maxreq maxresp| |]; cbn [chain_reqset_keys] in Hc.
       - apply IH. exact Hc.
       - rewrite in_app_iff in Hc. rewrite IH by tauto. apply hvalues_fold_hset_other. tauto.
       - destruct (bytes_eqb _ key); [apply IH; exact Hc|reflexivity].
       - destruct (Z.eqb (q_framing q) 1 && (maxreq <? q_blen q)); [reflexivity|apply IH; exact Hc].
-      - apply IH. exact Hc. }
+      - apply IH. exact Hc.
+      - cbn [In] in Hc. cbv zeta. rewrite IH by tauto. apply hvalues_hset_other. intros E. apply Hc. left. symmetry. exact E. }
     rewrite A2. replace h1 with (fst (id_middleware c (parsed q))) by (rewrite E; reflexivity).
     rewrite id_mw_other by assumption. unfold parsed. apply hvalues_map_val. }
   destruct (chain_request (c_chain c) q h1 pre1) as [[[code|] h2] pre2]; [discriminate|].
@@ -327,6 +372,52 @@ Proof.
   injection Hf as <- <-.
   rewrite proxy_request_keeps; [exact A| |exact Hx].
   unfold connection_listed. rewrite Hconn. exact Hn.
+Qed.
+
+(* ---- the ID headers in the presence of the request-id plugin ---- *)
+Lemma id_value_nonempty supplied gen : gen <> [] -> id_value supplied gen <> [].
+Proof.
+  intros Hg. destruct (id_value_cases supplied gen) as [[E _]|(v & _ & Hv & E)]; rewrite E; assumption.
+Qed.
+
+Lemma conn_through_chain chain q : forall h pre,
+  ~ In s_connection (chain_reqset_keys chain) ->
+  hvalues s_connection (snd (fst (chain_request chain q h pre))) = hvalues s_connection h.
+Proof.
+  induction chain as [|p t IH]; intros h pre Hc; cbn [chain_request]; [reflexivity|].
+  destruct p as [|set reqset|key|maxreq maxresp| |]; cbn [chain_reqset_keys] in Hc.
+  - apply IH. exact Hc.
+  - rewrite in_app_iff in Hc. rewrite IH by tauto. apply hvalues_fold_hset_other. tauto.
+  - destruct (bytes_eqb _ key); [apply IH; exact Hc|reflexivity].
+  - destruct (Z.eqb (q_framing q) 1 && (maxreq <? q_blen q)); [reflexivity|apply IH; exact Hc].
+  - apply IH. exact Hc.
+  - cbn [In] in Hc. cbv zeta. rewrite IH by tauto. apply hvalues_hset_other. intros E. apply Hc. left. symmetry. exact E.
+Qed.
+
+(* an ID the middleware chose (single non-empty value v on the request and pre-set on the response) reaches every response
+   path and the backend as v, through any chain - the request-id plugin included - whose `headers` plugins leave it alone *)
+Lemma forward_id c phase q k v :
+  hvalues k (fst (id_middleware c (parsed q))) = [v] -> hvalues k (snd (id_middleware c (parsed q))) = [v] -> v <> [] ->
+  ~ In k (hdr_reqset_keys (c_chain c)) -> ~ In k (hdr_set_keys (c_chain c)) ->
+  hvalues k (outcome_pre (forward c phase q)) = [v]
+  /\ forall b pre, forward c phase q = Forwarded b pre ->
+       ~ In s_connection (chain_reqset_keys (c_chain c)) -> s_connection <> c_rid_hdr c -> s_connection <> c_tr_hdr c ->
+       ~ In k (conn_listed_vals (map trim_ows (hvalues s_connection (q_hdrs q))) ++ hop_headers) -> k <> s_xff ->
+       hvalues k (bv_hdrs b) = [v].
+Proof.
+  intros Hh Hp Hv H1 H2. unfold forward. fold (parsed q).
+  destruct (id_middleware c (parsed q)) as [h1 pre1] eqn:E. cbn [fst snd] in Hh, Hp.
+  pose proof (chain_request_keeps_id k v (c_chain c) q h1 pre1 H1 H2 Hv Hh Hp) as [A B].
+  pose proof (conn_through_chain (c_chain c) q h1 pre1) as Hconn.
+  destruct (chain_request (c_chain c) q h1 pre1) as [[[code|] h2] pre]; cbn [snd fst] in A, B, Hconn.
+  - split; [exact B|]. intros b pre' Hf. discriminate.
+  - split; [destruct (Z.eqb phase 1); [exact B|]; destruct (Z.eqb phase 2); exact B|].
+    intros b pre' Hf Hc Hr Ht Hn Hx.
+    destruct (Z.eqb phase 1); [discriminate|]. destruct (Z.eqb phase 2); [discriminate|]. injection Hf as <- <-.
+    rewrite proxy_request_keeps; [exact A| |exact Hx].
+    unfold connection_listed. rewrite (Hconn Hc).
+    replace h1 with (fst (id_middleware c (parsed q))) by (rewrite E; reflexivity).
+    rewrite id_mw_other by assumption. unfold parsed. rewrite hvalues_map_val. exact Hn.
 Qed.
 
 (* end-to-end request headers reach the backend exactly as the front server parsed them *)
